@@ -17,9 +17,11 @@ property oracle on the real code's outputs.  Streams:
         PathIO, AsyncPathIO on a tmpdir, a buffering backend with a slow close) x EPSV/PASV x
         throttles x segmentation (every split of a short payload, byte-by-byte, random) of the
         data and control channels x latency.
+      x who looked at the target (stat + MLSD + LIST) BEFORE the transfer (nobody / same / other / both).
       Compared with the model AND with the oracle (plain Python slicing, independent of the
       model): stored bytes read from the backend once the client holds the 226, bytes received
-      before EOF, and stat / list size / a full RETR from a SECOND session.
+      before EOF, stat / MLSD / LIST sizes on the transferring session AND on another one, and a full RETR
+      from the other session.
   (e) the restart offset across command sequences with RETRs anywhere in them, also back to back
       over one passive listener (transfer_trace) vs the real dispatcher, and vs the plain-Python oracle
       "REST applies to exactly the next transfer command".
@@ -63,7 +65,9 @@ LEVEL_TEXT = (
     "C01_network_reads_conforming, C01_file_reads_conforming, C01_early_stop_impossible, C01_reply_after_close, "
     "C01_visible_after_226, C01_later_retr_sees_new_content, C01_rest_applies_to_next_transfer, C01_offset_applies_to_next_command_only, "
     "C01_second_transfer_starts_at_0, C01_back_to_back (a restart offset is served to exactly the next transfer command), "
-    "C01_stor_missing_file (REST n + STOR/APPE on a missing file: 451, nothing created), the write_at lemmas, and the closed obligations "
+    "C01_stor_missing_file (REST n + STOR/APPE on a missing file: 451, nothing created), C01_refused_transfer_consumes_offset "
+    "(a transfer refused before its worker runs consumes the offset too), C01_size_visible_after_226_whoever_looked (stat / "
+    "listing steps inserted anywhere in the upload's statement sequence: the size reported after the 226 is the new one), the write_at lemmas, and the closed obligations "
     "C01_source_facts / C01_verb_modes / C01_source_programs on the regenerated facts; C01_model_is_program_denotation, "
     "C01_stor_prog_exact, C01_retr_prog_exact, C01_upload_prog_exact, C01_download_prog_exact, C01_upload_path_exact, "
     "C01_download_path_exact (about the translated programs); C01_timed_reads_conforming, C01_timed_stor_exact, "
@@ -1468,8 +1472,10 @@ def correspondence(ctx, scale=None):
         "end, beyond end) x verb (upload_stream, append_stream, download_stream, upload(), download()) x server block size (1,3,4,7,"
         "64,default) x client chunking x backend (MemoryPathIO, PathIO, AsyncPathIO, buffering slow-close) x EPSV/PASV x throttles "
         "x latency x mid-transfer stalls x segmentation (every split of payloads up to 5-6 bytes; byte-by-byte; random) on data and control channels x "
-        "pre-existing content (missing, shorter, equal, longer); (e) REST/TYPE/NOOP/RETR sequences (RETRs anywhere, also back to back over one passive listener; 5 fixed incl. the former F14 "
-        "witness + 45 random) vs transfer_trace and the offset oracle; (f) REST n + STOR/APPE on a missing file: 3 backends x 2 verbs x offsets "
+        "pre-existing content (missing, shorter, equal, longer); (e) sequences over REST n / TYPE / NOOP / RETR / STOR / APPE / refused transfers (550 missing, 550 permission, 425 no data "
+        "connection) through ONE passive listener, transfers anywhere and back to back (10 fixed + 50 random) vs transfer_trace and the "
+        "plain-Python offset oracle; every session case of (d) additionally draws who stats + lists (MLST, MLSD, LIST) the target BEFORE "
+        "the transfer (nobody / the transferring session / another session / both), and both sessions do so AFTER the completion reply; (f) REST n + STOR/APPE on a missing file: 3 backends x 2 verbs x offsets "
         "(1, 5, 0) x 3 payloads; (b2) "
         "timed read traces: 0-6 segments at non-decreasing instants (gaps 0..1000) x scripted wait delays (0..5000) x block size, real "
         "ThrottleStreamIO.read on the virtual clock vs timed_trace (blocks AND instants). A case "
